@@ -20,7 +20,94 @@ func show(tag string, b []byte, first gopacket.Decoder, o gopacket.DecodeOptions
 	fmt.Println("truncated:", p.Metadata().Truncated, "err:", p.ErrorLayer())
 }
 
+func rt(in []byte, first gopacket.Decoder) {
+	o := gopacket.DecodeOptions{DecodeStreamsAsDatagrams: true}
+	p := gopacket.NewPacket(in, first, o)
+	fmt.Println(p.Dump())
+	var sls []gopacket.SerializableLayer
+	var nl gopacket.NetworkLayer
+	for _, l := range p.Layers() {
+		if x, ok := l.(interface {
+			SetNetworkLayerForChecksum(gopacket.NetworkLayer) error
+		}); ok && nl != nil {
+			x.SetNetworkLayerForChecksum(nl)
+		}
+		if x, ok := l.(gopacket.NetworkLayer); ok {
+			nl = x
+		}
+		if sl, ok := l.(gopacket.SerializableLayer); ok {
+			sls = append(sls, sl)
+		}
+	}
+	buf := gopacket.NewSerializeBuffer()
+	err := gopacket.SerializeLayers(buf, gopacket.SerializeOptions{FixLengths: true, ComputeChecksums: true}, sls...)
+	fmt.Println("serialize err:", err)
+	fmt.Println("in :", hex.EncodeToString(in))
+	fmt.Println("out:", hex.EncodeToString(buf.Bytes()))
+	q := gopacket.NewPacket(buf.Bytes(), first, o)
+	fmt.Println(q.Dump())
+	fmt.Println("truncated:", q.Metadata().Truncated, "err:", q.ErrorLayer())
+}
+
+// rt1: per-layer round trip of every layer of the decoded input
+func rt1(in []byte, first gopacket.Decoder) {
+	o := gopacket.DecodeOptions{DecodeStreamsAsDatagrams: true}
+	p := gopacket.NewPacket(in, first, o)
+	var nl gopacket.NetworkLayer
+	for _, l := range p.Layers() {
+		if x, ok := l.(interface {
+			SetNetworkLayerForChecksum(gopacket.NetworkLayer) error
+		}); ok && nl != nil {
+			x.SetNetworkLayerForChecksum(nl)
+		}
+		switch x := l.(type) {
+		case *layers.IPv4:
+			nl = x
+		case *layers.IPv6:
+			nl = x
+		}
+		sl, ok := l.(gopacket.SerializableLayer)
+		if !ok || l.LayerType() == gopacket.LayerTypePayload {
+			continue
+		}
+		fmt.Println("=====", l.LayerType())
+		fmt.Println("x  :", gopacket.LayerString(l))
+		fmt.Println("b0 :", hex.EncodeToString(l.LayerContents()), "|", hex.EncodeToString(l.LayerPayload()))
+		buf := gopacket.NewSerializeBuffer()
+		err := gopacket.SerializeLayers(buf, gopacket.SerializeOptions{FixLengths: true, ComputeChecksums: true}, sl, gopacket.Payload(l.LayerPayload()))
+		if err != nil {
+			fmt.Println("serialize err:", err)
+			continue
+		}
+		fmt.Println("b1 :", hex.EncodeToString(buf.Bytes()))
+		q := gopacket.NewPacket(buf.Bytes(), l.LayerType(), o)
+		if len(q.Layers()) > 0 {
+			l1 := q.Layers()[0]
+			fmt.Println("L1 :", gopacket.LayerString(l1))
+			fmt.Println("     contents", len(l1.LayerContents()), "payload", len(l1.LayerPayload()), "truncated", q.Metadata().Truncated, "err", q.ErrorLayer())
+		}
+	}
+}
+
 func main() {
+	if os.Args[1] == "rt1" {
+		in, _ := hex.DecodeString(os.Args[3])
+		var first gopacket.Decoder = layers.LayerTypeEthernet
+		if d, ok := gopacket.DecodersByLayerName[os.Args[2]]; ok {
+			first = d
+		}
+		rt1(in, first)
+		return
+	}
+	if os.Args[1] == "rt" {
+		in, _ := hex.DecodeString(os.Args[3])
+		var first gopacket.Decoder = layers.LayerTypeEthernet
+		if d, ok := gopacket.DecodersByLayerName[os.Args[2]]; ok {
+			first = d
+		}
+		rt(in, first)
+		return
+	}
 	hx := os.Args[2]
 	if strings.HasPrefix(hx, "@") {
 		b, _ := os.ReadFile(hx[1:])
